@@ -134,9 +134,25 @@ claim("C18", "model_checking",
       "the code forms: the function is handed base+1 of a larger object and base[0] is asserted untouched.",
       "CBMC function/loop contracts + bounded exhaustive strings on mechanically extracted C++ leaf functions", "DESIGN.md section 6 / C18")
 
-_later = "check not built yet in this revision (planned, see DESIGN.md section 6)"
-for k in ("C19",):
-    NA[k] = _later
+claim("C19", "proof",
+      "PARTIAL (learn queue, controller binding and the linear mapping; createBinding's metadata parsing and the log scale are out of "
+      "reach). History claims are decided by INDUCTION OVER OPERATIONS on AutomationMgr's methods, extracted mechanically to C on every "
+      "run: a representation invariant (learn_queue_len = k, the waiting slots hold the ranks 1..k once each, all others -1; no two slots "
+      "bound to one controller / NRPN; NRPN registers in range) holds after the real constructor (native exhaustive base case over all 18 "
+      "configurations) and is preserved by every operation, and each operation performs the abstract transition the statement demands - "
+      "clearSlot removes exactly that slot from the queue, an unbound controller (CC or complete NRPN) binds the HEAD of the queue and "
+      "pops it, a bound controller drives exactly its slot(s) and leaves the queue alone, enqueue appends, setSlot/setSlotSub/updateMapping/"
+      "clearSlotSub/gain/offset do not touch learning, queue length or controller fields. Over the property's whole configuration space "
+      "(nslots 1..6 x per_slot 1..3, symbolic in one obligation; thorough: each configuration with exact-size objects) with every field "
+      "symbolic under the invariant, so the unwinding is complete and the obligations count as proved. Emitted message: address == "
+      "param_path, type == param_type, value inside [min,max] (true/false for toggles), b >= a for gain >= 0, exact end points at the "
+      "defaults (thorough). Monotonicity in the slot value and float linearity are UNDECIDED (two coupled multipliers; not claimed).",
+      "Trusted: CBMC + kissat; extraction rules (method, auto-ref, struct-lift, tail-cut of createBinding's two learn-queue lines) in "
+      "evidence; rtosc_message replaced by a recorder (contract decided under C01), snprintf by a size-checking stub, setSlot by its own "
+      "proved contract inside handleMidi. MIDI domain channel 0..15, controller/value 0..127; numeric domain of the mapping stated in evidence.",
+      "induction over operations: representation invariant + per-operation transition contracts, CBMC on mechanically extracted methods",
+      "DESIGN.md section 6 / C19")
+
 NA["C04"] = "Dispatch, the perfect-hash construction and the callbacks are C++ over std::vector<Port>, std::string, std::function with range-for/lambdas; CBMC's C++ front end rejects the TU and has no contract syntax in C++ mode; the only C ingredient, rtosc_match, is decided under C05."
 NA["C09"] = "walk_ports/walk_ports_recurse/bundle_foreach/port_is_enabled take Ports&, iterate std::vector, call std::function ports and snprintf into the shared buffer; no C-extractable core carries the statement."
 NA["C10"] = "The printer and scanner are snprintf(\"%a\"), strftime, sscanf, localtime: libc text conversion of floats and dates, which CBMC neither models nor can be given a contract that decides round-tripping."
